@@ -339,3 +339,108 @@ c07_r2!(c07_r2_dispatch_dereference, 2);
 c07_r2!(c07_r2_dispatch_tree_ops, 3);
 c07_r2!(c07_r2_dispatch_tree_ops2, 4);
 c07_r2!(c07_r2_dispatch_tree_ops3, 5);
+
+
+// =====================================================================================
+// C09.Q / C14.Q: point lookups through the index into the value tables (HashColumn::get over an OvView):
+// the current index and every queued (not yet migrated) older index are consulted; keys that share a page and a
+// partial key are told apart by the key tail stored with the value.
+// =====================================================================================
+fn put_entry(page: &mut crate::index::Chunk, slot: usize, e: u64) {
+	let b = e.to_le_bytes();
+	let mut k = 0; while k < 8 { page.0[slot * 8 + k] = b[k]; k += 1; }
+}
+/// Hashed key with a concrete index-visible prefix (bytes 0..8) and a symbolic tail.
+fn key_with_tail(tail: &[u8; 24]) -> Key {
+	let mut k = [0u8; 32];
+	k[0] = 0x12; k[1] = 0x34; k[2] = 0x56; k[3] = 0x78; k[4] = 0x9a; k[5] = 0xbc; k[6] = 0xde; k[7] = 0xf0;
+	let mut i = 0; while i < 24 { k[8 + i] = tail[i]; i += 1; }
+	k
+}
+/// Store `val` (8 bytes) for `key` in tier 1 (64-byte entries) slot `slot` of the overlay: [size][key tail 26][value 8].
+fn put_value(w: &mut LogWriter, key: &Key, slot: u64, val: &[u8; 8]) {
+	let mut v = Vec::with_capacity(36);
+	v.push(34u8); v.push(0u8);
+	let mut i = 0; while i < 26 { v.push(key[6 + i]); i += 1; }
+	let mut i = 0; while i < 8 { v.push(val[i]); i += 1; }
+	w.insert_value(ValueTableId::new(0, 1), slot, v);
+}
+
+/// where = 0: entry in the current index; 1: in the first queued older index; 2: in the second queued older index.
+fn lookup_case(wh: usize) {
+	let mut col = mini_plain(false);
+	// current index has 18 bits; two older indexes (16, 17 bits) wait in the reindex queue
+	{
+		let mut t = col.tables.write();
+		t.index = crate::index::verif_kani::table(18);
+		let mut r = col.reindex.write();
+		r.queue.push_back(ReindexEntry::Index(crate::index::verif_kani::table(16)));
+		r.queue.push_back(ReindexEntry::Index(crate::index::verif_kani::table(17)));
+	}
+	let overlays = vl::new_overlays();
+	let mut w = LogWriter::new(&overlays, 1);
+	vl::view_reset_pages();
+	crate::index::verif_kani::mirror_reset();
+	let tail: [u8; 24] = kani::any();
+	let other: [u8; 24] = kani::any();
+	let key = key_with_tail(&tail);
+	let key2 = key_with_tail(&other);
+	let val: [u8; 8] = kani::any();
+	let val2: [u8; 8] = kani::any();
+	put_value(&mut w, &key2, 1, &val2); // a colliding neighbour (same page, same partial key) in slot 1
+	put_value(&mut w, &key, 2, &val);
+	let bits = [18u8, 16, 17][wh];
+	let kp = TableKey::index_from_partial(&key);
+	let it = crate::index::verif_kani::table(bits);
+	let mut page = crate::index::Chunk([0u8; 512]);
+	let slot0: usize = 5;
+	// neighbour first, then a hole, then the key: the search has to continue past a candidate whose tail differs
+	let (en1, en2) = (crate::index::verif_kani::entry_for(kp, Address::new(1, 1).as_u64(), bits), crate::index::verif_kani::entry_for(kp, Address::new(2, 1).as_u64(), bits));
+	put_entry(&mut page, slot0, en1);
+	put_entry(&mut page, slot0 + 2, en2);
+	let at = crate::index::verif_kani::chunk_index_of(&it, kp);
+	vl::view_set_page(0, it.id, at, page);
+	crate::index::verif_kani::mirror_page(0, it.id, at);
+	crate::index::verif_kani::mirror_entry(0, slot0, en1);
+	crate::index::verif_kani::mirror_entry(0, slot0 + 2, en2);
+	let view = vl::OvView;
+	let got = col.get(&key, &view).unwrap();
+	if tail == other {
+		// same key: the first candidate already matches
+		assert!(got.is_some(), "C09.Q a stored key is found");
+	} else {
+		match &got {
+			Some((v, rc)) => {
+				assert!(*rc == 1 && v.len() == 8, "C09.Q value shape");
+				let i: usize = kani::any(); kani::assume(i < 8);
+				assert!(v[i] == val[i], "C09.Q colliding keys are told apart by the stored key tail: each key returns its own value");
+			},
+			None => assert!(false, "C09.Q a key stored in the current or in any queued older index is found"),
+		}
+	}
+	let got2 = col.get(&key2, &view).unwrap();
+	assert!(got2.is_some(), "C09.Q the colliding neighbour stays readable");
+	// a key with the same prefix but a third tail is absent
+	let third: [u8; 24] = kani::any();
+	kani::assume(third != tail && third != other);
+	let got3 = col.get(&key_with_tail(&third), &view).unwrap();
+	assert!(got3.is_none(), "C14.Q no index entry resolves to a value of another key");
+	kani::cover!(tail != other);
+	std::mem::forget(got); std::mem::forget(got2); std::mem::forget(got3);
+	std::mem::forget(w); std::mem::forget(overlays); std::mem::forget(col);
+	std::mem::forget(it);
+}
+
+macro_rules! c09_q {
+	($name:ident, $wh:expr) => {
+		crate::verif_tbl! {
+			#[kani::proof]
+			#[kani::unwind(66)]
+			#[kani::stub(crate::index::IndexTable::find_entry, crate::index::verif_kani::find_entry_contract)]
+			fn $name() { lookup_case($wh) }
+		}
+	};
+}
+c09_q!(c09_q_lookup_current_index, 0);
+c09_q!(c09_q_lookup_first_queued_index, 1);
+c09_q!(c09_q_lookup_second_queued_index, 2);
